@@ -35,8 +35,8 @@ def main(argv=None):
         except ModuleNotFoundError:
             print(f"ANALYSIS-ERROR property={prop}: no rule module")
             return 2
-        ctx = Context(args.repo)
         rep = Report(prop, args.tier, seed)
+        ctx = Context(args.repo)
         mod.run(ctx, rep)
         if args.tier == "thorough" and hasattr(mod, "run_thorough"):
             mod.run_thorough(ctx, rep)
